@@ -10,6 +10,7 @@ from gemato.compression import (
     get_potential_compressed_names,
     open_potentially_compressed_path,
     )
+from gemato.exceptions import ManifestSyntaxError
 from gemato.manifest import ManifestFile
 
 
@@ -65,6 +66,9 @@ def find_top_level_manifest(path='.', allow_xdev=True, allow_compressed=False):
                     m.load(f, verify_openpgp=False)
             except FileNotFoundError:
                 pass
+            except UnicodeDecodeError as exc:
+                raise ManifestSyntaxError(
+                    f'{m_path}: not valid UTF-8: {exc}')
             else:
                 # check if the initial path is ignored
                 relpath = os.path.relpath(path, cur_path)
